@@ -188,6 +188,9 @@ func Tokenize(s string, ctx int, limit int) (toks []Token, capped bool) {
 				pos++
 				st = stPercentComment
 			case alpha(c) || c == 0:
+				// a start tag begins: the end-tag flag of an earlier "</p >",
+				// "</a b=c>" or "</>" does not carry over (defect D8, repaired)
+				closing = false
 				st = stTagName
 			default:
 				if pos == 0 {
@@ -205,7 +208,7 @@ func Tokenize(s string, ctx int, limit int) (toks []Token, capped bool) {
 			c := s[pos]
 			switch {
 			case c == '>':
-				st = stData // "</>": nothing emitted; the closing flag stays set
+				st = stData // "</>": nothing emitted; the closing flag stays set until the next start tag
 			case alpha(c):
 				st = stTagName
 			default:
